@@ -702,8 +702,17 @@ def scheduled_run(ctx, case, drv, pool):
             env.parser.parse.initialized_dbs = {Path(folder) / DB}
         upd = bool(case.get("update"))
         gp = gate_path_class(sched.hook)
-        threads = [threading.Thread(target=sched.worker, args=(i, (lambda t=texts[i]: env.parser.parse(
-            t, model_cache_folder=gp(folder), always_update_last_hit=upd))), daemon=True) for i in range(n)]
+        days = case.get("days") or [30] * n
+        newproc = case.get("newproc") or [False] * n
+
+        def call(i):
+            # `newproc`: this call is the first use of the database in its "process": the module state is forgotten
+            # when it enters (a module reload, as between the calls of two processes)
+            if newproc[i]:
+                env.reload()
+            return env.parser.parse(texts[i], model_cache_folder=gp(folder), always_update_last_hit=upd,
+                                    cache_expiration_days=days[i])
+        threads = [threading.Thread(target=sched.worker, args=(i, (lambda i=i: call(i))), daemon=True) for i in range(n)]
         for t in threads:
             t.start()
         live = list(range(n))
@@ -1044,6 +1053,10 @@ def thread_round(ctx, case, pool):
 
 # ---- run ---------------------------------------------------------------------------------------------------
 def make_pool(rng, n=4):
+    """texts 0..2: what the calls parse; 3: the text an `existing` database was created with; 4: a big valid text
+    (its parse takes a few hundred ms); 5, 6: small texts with a syntax error of the kind ANTLR repairs in-line.
+    keys: canonical form of the uncached parse, None for the texts with a syntax error (by the generated parser's own
+    error count — independent of pymoca's listener)."""
     from pymoca import parser
     texts = []
     i = 0
@@ -1051,16 +1064,32 @@ def make_pool(rng, n=4):
         t = a01.gen_text(rng, i)
         i += 1
         try:
-            if parser._parse(t) is not None:
+            if a01.syntax_errors(t) == 0 and parser._parse(t) is not None:
                 texts.append(t)
         except Exception:
             pass
-    return {"texts": texts, "keys": [a01.canon_key(parser._parse(t)) for t in texts]}
+    parts = []
+    while len(parts) < 100:
+        t = a01.gen_text(rng, 1000 + i)
+        i += 1
+        if not t.startswith("within") and a01.syntax_errors(t) == 0:
+            parts.append(t)
+    texts.append("".join(parts))
+    for how in ("double_eq", "end_noname", "extra_paren", "nosemi"):
+        if len(texts) >= n + 3:
+            break
+        b = a01.break_text(rng, texts[len(texts) % 3], how)
+        if a01.syntax_errors(b) > 0 and b not in texts:
+            texts.append(b)
+    return pool_of(texts)
 
 
 def pool_of(texts):
     from pymoca import parser
-    return {"texts": list(texts), "keys": [a01.canon_key(parser._parse(t)) for t in texts]}
+    keys = []
+    for t in texts:
+        keys.append(None if a01.syntax_errors(t) else a01.canon_key(parser._parse(t)))
+    return {"texts": list(texts), "keys": keys}
 
 
 def run(ctx):
@@ -1148,6 +1177,12 @@ def _run_ties(ctx, drv, quick, rng, pool, workers):
     for state, late in [("fresh", 3), ("fresh", 9), ("wronglayout", 4), ("wronglayout", 12), ("existing", 3)]:
         fixed.append({"kind": "schedule", "state": state, "texts": [0, 0], "preinit": False, "update": False,
                       "policy": "random", "stagger": [0, late], "seed": late, "pool": pool["texts"]})
+    # a hit, and a first-use call whose start-up prune expires that entry, arriving at every point of the hit
+    for late in range(17, 28):
+        # (the late call parses another text: it prunes the first call's entry and does not put it back)
+        fixed.append({"kind": "schedule", "state": "cached", "texts": [0, 1], "preinit": False, "update": late % 2 == 0,
+                      "days": [30, 0], "newproc": [False, True], "policy": "favor:1", "stagger": [0, late], "seed": late,
+                      "pool": pool["texts"]})
     # a second call that arrives after the first one's k-th statement and then runs whenever it can
     for state, late in [("extracol", 2), ("extracol", 3), ("extracol", 5), ("wronglayout", 2), ("fresh", 2), ("fresh", 4)]:
         fixed.append({"kind": "schedule", "state": state, "texts": [0, 1], "preinit": False, "update": False,
@@ -1164,7 +1199,9 @@ def _run_ties(ctx, drv, quick, rng, pool, workers):
             case = {"kind": "schedule", "state": rng.choice(["fresh", "fresh", "existing", "wronglayout", "cached", "extracol"]),
                     "texts": [0] * n if same else [rng.randrange(3) for _ in range(n)],
                     "preinit": False, "update": False, "policy": rng.choice(["random", "random", "roundrobin"]),
-                    "stagger": [0] + [rng.choice([0, 0, 2, 5, 9, 14, 20]) for _ in range(n - 1)],
+                    "stagger": [0] + [rng.choice([0, 0, 2, 5, 9, 14, 20, 23]) for _ in range(n - 1)],
+                    "days": [rng.choice([30, 30, 0, 1]) for _ in range(n)],
+                    "newproc": [False] + [rng.random() < 0.5 for _ in range(n - 1)],
                     "seed": rng.randrange(1 << 30), "pool": pool["texts"]}
             if case["state"] in ("existing", "cached") and rng.random() < 0.4:
                 case["preinit"] = True
@@ -1178,20 +1215,26 @@ def _run_ties(ctx, drv, quick, rng, pool, workers):
     mark("scheduled")
     # (E') free-running threads of this process
     tplan = ([("fresh", 4)] * 4 + [("fresh", 8)] * 3 + [("wronglayout", 8)] * 2 + [("cached", 8)] * 3 + [("existing", 8)] * 2
-             + [("extracol", 8)] * 2) if quick else \
-        ([("fresh", 4)] * 20 + [("fresh", 8)] * 40 + [("wronglayout", 8)] * 30 + [("cached", 8)] * 30 + [("existing", 8)] * 30 + [("extracol", 8)] * 30)
+             + [("extracol", 8)] * 2 + [("fresh-mixed", 6)] * 3 + [("existing-mixed", 6)] * 1) if quick else \
+        ([("fresh", 4)] * 20 + [("fresh", 8)] * 40 + [("wronglayout", 8)] * 30 + [("cached", 8)] * 30 + [("existing", 8)] * 30 + [("extracol", 8)] * 30 + [("fresh-mixed", 6)] * 20 + [("existing-mixed", 6)] * 10)
     for r, (state, n) in enumerate(tplan):
         if ctx.time_left() < (8 if quick else 100):
             ctx.notes.append("thread stress stopped by the time budget after %d rounds" % r)
             break
         mode = r % 3
         texts = [0] * n if mode == 0 else ([i % 3 for i in range(n)] if mode == 1 else [rng.randrange(3) for _ in range(n)])
+        second = [rng.randrange(3) for _ in range(n)] if r % 3 == 2 else None
+        if state.endswith("-mixed"):
+            # all calls miss and are inside the ANTLR parse at the same time: a big valid text (index 4) next to small
+            # texts with a syntax error (5, 6) and small valid ones
+            state, second = state[:-6], None
+            texts = ([4, 5, 6, 5, 0, 6, 1, 5] if mode != 1 else [5, 4, 6, 6, 2, 5, 0, 6])[:n]
         case = {"kind": "threads", "state": state, "n": n, "texts": texts,
-                "second": [rng.randrange(3) for _ in range(n)] if r % 3 == 2 else None, "update": state == "cached",
+                "second": second, "update": state == "cached",
                 "pool": pool["texts"], "round": r}
         ok = thread_round(ctx, case, pool)
         ctx.case({k2: v for k2, v in case.items() if k2 != "pool"}, nontrivial=n >= 4)
-        ctx.count("threads-%s-%d%s" % (state, n, "-twice" if case["second"] else ""))
+        ctx.count("threads-%s-%d%s%s" % (state, n, "-twice" if case["second"] else "", "-mixed" if 4 in texts else ""))
         if not ok:
             break
     mark("threads")
